@@ -46,7 +46,7 @@ func (m Measure) SPL() string {
 	return m.Fn + "(" + m.Field + ")"
 }
 
-// StatsQuery is `filter | stats measures by fields` or `filter | timechart span=… measures`.
+// StatsQuery is `filter | stats measures by fields` or `filter | timechart span=… measures [by field]`.
 type StatsQuery struct {
 	Filter    *Filter   `json:"filter"`
 	Measures  []Measure `json:"measures"`
@@ -69,6 +69,9 @@ func (q *StatsQuery) SPL() string {
 	}
 	if q.Timechart {
 		sb.WriteString(" | timechart span=" + q.SpanText + " " + strings.Join(parts, ", "))
+		if len(q.By) == 1 {
+			sb.WriteString(" by " + q.By[0]) // split-by field: one series per value and measure
+		}
 		return sb.String()
 	}
 	sb.WriteString(" | stats " + strings.Join(parts, ", "))
